@@ -54,6 +54,10 @@ func (e *E2eProcessingLatencyAggregate) Less(i, j int) bool {
 // Add merges e2 into e by averaging the percentiles
 func (e *E2eProcessingLatencyAggregate) Add(e2 *E2eProcessingLatencyAggregate) {
 	e.Addr = "*"
+	if e2 == nil {
+		// the upstream did not report e2e_processing_latency
+		return
+	}
 	p := e.Percentiles
 	e.Count += e2.Count
 	for _, value := range e2.Percentiles {
